@@ -10,6 +10,7 @@ import (
 
 	"verifharness/bn"
 	"verifharness/model"
+	"verifharness/reflex"
 	"verifharness/run"
 )
 
@@ -234,6 +235,76 @@ func TestC06(t *testing.T) {
 		c.OnReplay("fault", func(s *Sub, rp *Replay) { c.c06Program(s, "replay", rp.Source, true, true) })
 		c.ReplayTier()
 
+		// the faulting expression (or statement) spread over several lines, one token per line: which of its
+		// lines the diagnostic names is not pinned, but it must be one of them (the lines from its first token
+		// to the token that ends it) — and everything else holds as for one-line faults
+		c.Sub("multi-line-faults", func(s *Sub) {
+			var k int64
+			spread := func(text string) (string, int) {
+				toks := reflex.Lex([]rune(text)).Toks
+				var parts []string
+				for _, t := range toks {
+					if t.Kind != bn.TEOF {
+						parts = append(parts, t.Text)
+					}
+				}
+				return strings.Join(parts, "\n"), len(parts)
+			}
+			check := func(src string, first, last int, labels ...string) {
+				mc := c.runModelCase(s, src, "typed-line\nsecond\n", model.Options{MaxSteps: 30000}, judgeOpts{checkLine: false, checkKind: true})
+				if mc.Res.Outcome == model.OverBudget || mc.Res.Outcome == model.Unspecified {
+					return
+				}
+				c.Ev.EnumCase("multi-line-faults", mc.Res.Outcome == model.RuntimeError, func() string { return src }, labels...)
+				if mc.Sig != "" {
+					s.Violation(mc.replay("fault"))
+					return
+				}
+				if mc.Res.Outcome == model.RuntimeError {
+					if ln := run.DiagLine(mc.Resp.Err); ln < first || ln > last {
+						s.Violation(Replay{Check: "fault", Sig: "line-outside-construct", Source: src, Stdin: "typed-line\nsecond\n",
+							Note: fmt.Sprintf("the diagnostic names line %d; the failing construct occupies lines %d-%d", ln, first, last), Observed: mc.Resp.Describe()})
+					}
+				}
+			}
+			preLines := strings.Count(c06Prelude, "\n")
+			for _, f := range c06Faults {
+				for _, wrap := range []string{"%s\n;\n", bn.KwPrint + "\n%s\n;\n", "x =\n%s\n;\n", bn.KwVar + " nv = %s;\n", bn.KwIf + " (\n%s\n) {\n}\n", "pr(\"arg\",\n%s\n)\n;\n", "x = [1,\n%s\n, 2];\n"} {
+					k++
+					if !c.Mine(k) {
+						continue
+					}
+					body, n := spread(f.expr)
+					if strings.HasPrefix(wrap, bn.KwVar) {
+						body, n = f.expr, 1 // declarations stay on one line
+					}
+					text := fmt.Sprintf(wrap, body)
+					lead := strings.Count(strings.SplitN(wrap, "%s", 2)[0], "\n")
+					first := preLines + 1 + lead
+					last := first + n - 1 + 1 // the token that ends the construct sits on the next line
+					if strings.HasPrefix(wrap, bn.KwVar) {
+						last = first
+					}
+					check(c06Prelude+text+c06Tail, first, last, "kind-"+f.kind)
+				}
+			}
+			for _, f := range c06StmtFaults {
+				if f.kind != "stray" {
+					continue
+				}
+				k++
+				if !c.Mine(k) {
+					continue
+				}
+				body, n := spread(f.stmt)
+				for _, wrap := range []string{"%s\n", "{\n%s\n}\n", bn.KwFun + " sg() {\n%s\n}\nsg();\n"} {
+					lead := strings.Count(strings.SplitN(wrap, "%s", 2)[0], "\n")
+					first := preLines + 1 + lead
+					check(c06Prelude+fmt.Sprintf(wrap, body)+c06Tail, first, first+n-1, "kind-stray")
+				}
+			}
+			c.Ev.MarkExhaustive(fmt.Sprintf("%d faulting expressions x 7 multi-line wrappings and the stray statements x 3, one token per line", len(c06Faults)))
+		})
 		c.Sub("fault-x-position", func(s *Sub) {
 			var k int64
 			for _, f := range c06Faults {
